@@ -84,18 +84,20 @@ func main() {
 	run := evid.New("C17", "fault_enumeration")
 	run.MaxVio = 16
 	run.Rule("A (unit): sender context = key {all-zero, all-0xFF, pi digits, e digits} (30 bytes = the library's constant) x SSRC set {{0},{2^32-1},{0x12345678},{0,2^32-1},{1,2^31},{0,2^32-1,0xDEADBEEF}} x starting roll-over counter {0,1,65535,2^32-1} x MKI {none, 4 bytes} x payload length 0..64; " +
-		"each case: contextToMikey -> Message.Marshal -> KeyMgmt header Marshal/Unmarshal AND SDP a=key-mgmt via description.Session Marshal/Unmarshal2 -> mikeyToContext (two receivers), then RTP sequence numbers 65530..65535,0..10 for every SSRC, 3 rounds of RTCP {SR, RR, SR+SDES compound, APP with the payload when length%4==0} for every SSRC, and a late joiner (second MIKEY message after the counter advanced) for 3 more packets; the reverse direction runs interleaved with the mirrored configuration (next key, next SSRC set, next counter). " +
-		"B (wire): flows {play, record, play with back channel} x {udp, tcp over real TLS, tcp with the TLS layer replaced by the identity at the library's seams (interleaved frames visible)} with 2-format medias (two SSRCs per MIKEY message); tamper targets = every (flow, direction, rtp|rtcp) over UDP: {play s2c rtp, play s2c rtcp, play c2s rtcp, record c2s rtp, record c2s rtcp, record s2c rtcp, back channel c2s rtp}; alterations of one protected datagram: quick = every bit of the first 48 and the last 16 bytes, thorough = every bit of the packet plus every byte set to 0x00 and to 0xFF (identity alterations skipped) and a second, larger RTP shape (CSRC + header extension, 96-byte payload). " +
-		"C (admission): server TLS {off,on} x mode {play, record} x profile {AVP, SAVP} x {udp, tcp, multicast} through a raw peer, preference lists of two transports, the real client scheme {rtsp, rtsps} x protocol {auto, udp, tcp} against both servers, and redirects {301,302,303,305} x Location {rtsp other port, rtsp same port, rtsps (control), relative}. " +
-		"non-trivial = every case (A: the counter advances in each stream; B: each alteration is a distinct (target, byte, bit/value)); distinct = the tuple itself")
+		"each case: contextToMikey -> Message.Marshal -> KeyMgmt header Marshal/Unmarshal AND SDP a=key-mgmt via description.Session Marshal / sdpunmarshaler / Unmarshal2 -> mikeyToContext (two receivers, parameters compared), then RTP sequence numbers 65530..65535,0..10 for every SSRC (size +10 [+MKI], payload not visible, decrypted == sent), 3 rounds of RTCP {SR, RR, SR+SDES compound, APP with the payload when length%4==0} for every SSRC (size +14 [+MKI]), and a late joiner (second MIKEY message after the counter advanced) for 3 more packets; the reverse direction runs interleaved with the mirrored configuration (next key, next SSRC set, next counter). " +
+		"B (wire, real Server with TLSConfig + real Client with rtsps on memnet, medias with 2 formats = 2 SSRCs per MIKEY message, sequence numbers wrap in every stream): clear-payload pass = flows {play, record, play with back channel} x {udp, tcp over real TLS, tcp with the TLS layer replaced by the identity at the library's seams so that interleaved frames are visible} x every write entry point x every format, 8 (thorough 32) patterned packets each + positive controls {play, record} x {udp, tcp} without TLS; " +
+		"tamper pass = targets {play: s2c rtp, s2c rtcp, c2s rtcp; record: c2s rtp, c2s rtcp, s2c rtcp; back channel: c2s rtp; thorough adds session-level s2c rtp/rtcp and back-channel c2s rtcp} x {udp datagrams, interleaved frames of the identity-TLS variant}; alterations of one protected packet: quick = every bit of the first 48 and the last 16 bytes (= every bit of the 54/58-byte packets), thorough = every bit plus every byte set to 0x00 and to 0xFF (identity alterations skipped) and a second RTP shape (CSRC + one-byte header extension, 96-byte payload, 130 bytes protected); plus one bit of each SSRC byte of the FIRST packet of a stream (4 fresh worlds, play s2c and record c2s). " +
+		"C (admission): server TLS {off,on} x mode {play, record} x profile {AVP, SAVP} x {udp, tcp interleaved, multicast request} through a raw peer (sysx.Peer / the same over crypto/tls), 6 preference lists of two transports per server, the real client scheme {rtsp, rtsps} x protocol {auto, udp, tcp} against both servers, and redirects {301,302,303,304,305} x Location {rtsp other port, rtsp same port, rtsp with user info, RTSP upper case} from an rtsps URL, with controls (same-scheme redirect followed, on both servers). " +
+		"non-trivial = every case (A: the counter advances in each stream; B: each alteration is a distinct (target, transport, shape, byte, bit/value)); distinct = the tuple itself")
 	run.Assume("A: with a starting roll-over counter of 2^32-1 the sender may refuse to protect the packet whose 48-bit index would wrap (RFC 3711 section 9.2, key exhausted); everything before the wrap must round-trip. A late joiner is only exercised when the counter can advance")
-	run.Assume("the protected form is compared with the clear payload by substring search; a coincidence has probability < 2^-32 per packet and the space is deterministic")
-	run.Assume("B: memnet delivers datagrams in FIFO order and the library reads each UDP socket from one goroutine, so when the unaltered packet sent after an altered one has reached its callback, the altered one has been processed; the harness holds the original back, injects the altered copy and then the original from one goroutine")
-	run.Assume("B: alterations are applied from the 4th packet of a stream on. Whether unaltered packets are still delivered after an altered FIRST packet is not demanded (the remote SSRC is latched before authentication, DESIGN section 6 item 14); the first packets of every stream are delivered unaltered")
-	run.Assume("B: tcp flows over real TLS are judged on the tapped TLS byte stream; the frames inside are judged in the identity-TLS variant, where only the SRTP layer hides the payload. Tampering is applied to UDP datagrams only")
-	run.Assume("B: virtual time stands still during a flow, so the only RTCP the library produces on its own is the sender report after the first RTP packet, which the harness waits for before it opens a tamper window")
-	run.Assume("C: a refusal is any status >= 400; an admission is status 200. Multicast is only requested (pkg/multicast needs OS sockets), so the server has no multicast range: a multicast request must be refused where the security rule demands it and may be refused elsewhere")
-	run.Assume("C: positive controls (plain session shows the payload on the tap; rtsps->rtsps and rtsp->rtsp redirects are followed) must hold, otherwise the harness reports a set-up violation instead of a silent pass")
+	run.Assume("the protected form is compared with the clear payload by substring search (A: the whole payload when >= 4 bytes; B: every 8-byte window of the constant 18-byte prefix of the 32-byte patterns); a coincidence has probability < 2^-32 per packet and the space is deterministic")
+	run.Assume("B/udp: memnet delivers datagrams in FIFO order and the library reads each UDP socket from one goroutine; the tamper hook holds a fresh protected datagram back, the harness injects the altered copy and then the original from one goroutine and writes a fresh fence packet; when the fence has reached its callback, the altered copy has been processed. B/tcp-frames: the hook replaces the frame, in the same write, by [frame with the altered packet][original frame]")
+	run.Assume("B: judged per alteration: everything delivered between arming and the fence must be exactly {original, fence}; at least one decode error must have been reported (client: OnDecodeError; server: OnDecodeError = sysx decode-error event, counts cross-checked). Alterations start at the 4th packet of a stream")
+	run.Assume("B: whether unaltered packets are still delivered after an altered FIRST packet is not demanded (the remote SSRC is latched before authentication, DESIGN section 6 item 14); for the first packet only 'not delivered' and 'decode error reported' are demanded, the fate of the following packets is recorded as an observation")
+	run.Assume("B: tcp flows over real TLS are judged on the tapped TLS byte stream; the frames inside are judged in the identity-TLS variant, where only the SRTP layer hides the payload and rejects alterations")
+	run.Assume("B: virtual time stands still during a flow, so the only RTCP the library produces on its own is the sender report after the first RTP packet of a format, which the harness waits for before it opens a tamper window")
+	run.Assume("C: a refusal is any status >= 400; an admission is status 200 with a Transport header naming one of the offered transports that the documented rule (isTransportSupported) allows, and key material for a secure one. Multicast is only requested (pkg/multicast needs OS sockets), so the server has no multicast range: a multicast request must be refused where the security rule demands it and may be refused elsewhere")
+	run.Assume("C: a scheme mismatch between client and server can only end through the library's own timeouts; virtual time is pumped (liveness only) until the client call returns. Positive controls (plain session shows the payload on the tap; same-scheme redirects are followed; matching client/server pairs play) must hold, otherwise the harness reports a set-up violation instead of a silent pass")
 
 	if run.Replay != "" {
 		replay(run)
